@@ -11,9 +11,18 @@ import random
 from . import common, flow_impl, flowgen, floworacle
 
 
-def _sig(meta, breaches):
+def _sig(meta, breaches, prog=None):
     s = {k: (json.dumps(v) if isinstance(v, (list, dict)) else v) for k, v in meta.items()}
+    if prog is not None and prog.get('log') and 'log' not in s:
+        s['log'] = prog['log']          # the log level the case ran at is part of the input
     return s
+
+
+def log_level_of(k):
+    """The log level is part of the input: every 4th case runs with the root logger at DEBUG (10), every 8th at
+    INFO (20), every 8th at pypyr's NOTIFY (25) - records go to a sink that drops them; the rest with logging
+    disabled. The model does not depend on it: the expectations are the same at every level."""
+    return {1: 10, 5: 10, 3: 20, 7: 25}.get(k % 8)
 
 
 _JOB = None   # (env fields, directed, n_random, weights, observables, random_monitor) for forked workers
@@ -30,15 +39,21 @@ def _stream(env, res, drv, impl, directed, n_random, weights, observables, rando
             flow_impl.prepare(prog)
             if expect.get('entries'):
                 floworacle.fix_lines(prog, expect)
+            if 'log' not in prog and log_level_of(idx) is not None:
+                prog['log'] = log_level_of(idx)
+            elif prog.get('log') is None:
+                prog.pop('log', None)
             one(env, res, drv, impl, prog, meta, expect, observables)
             res.count('family:' + meta.get('family', name))
     rng = random.Random(env.seed * 7919 + 13 + shard * 104729)
-    for _ in range(n_random // shards + (1 if shard < n_random % shards else 0)):
+    for k_ in range(n_random // shards + (1 if shard < n_random % shards else 0)):
         if env.out_of_time():
             break
         if env.escalated and any(f['kind'] == 'property' for f in res.findings):
             break            # the escalated search has its failing input
         prog = flowgen.random_program(rng, weights)
+        if log_level_of(k_) is not None:
+            prog['log'] = log_level_of(k_)
         one(env, res, drv, impl, prog, {'family': 'random'}, None, observables, random_monitor)
         res.count('family:random')
 
@@ -96,6 +111,18 @@ def run_streams(env, res, directed, n_random, weights=None, observables=None, ra
 
 def one(env, res, drv, impl, prog, meta, expect, observables=None, random_monitor=None):
     case = {'prog': prog, 'meta': meta}
+    res.count('log-level:%s' % (prog.get('log') or 'disabled'))
+    if meta.get('impl_only'):
+        # a directed case outside the model's expression language (one-shot iterators, side effects in `!py`,
+        # steps the model does not have): the implementation alone, judged by the expectation from the property text
+        i = impl.run(prog)
+        case['expect'] = floworacle.expect_to_json(expect)
+        res.case(case)
+        res.count('implementation-only (judged by the property expectation)')
+        breaches = floworacle.judge(expect, i)
+        if breaches:
+            res.violation(case, '; '.join(breaches[:4]), signature=_sig(meta, breaches, prog), impl=i)
+        return
     try:
         m = flow_impl.model_run(drv, prog)
     except common.Reject as e:
@@ -133,7 +160,7 @@ def one(env, res, drv, impl, prog, meta, expect, observables=None, random_monito
     if random_monitor is not None:
         breaches += random_monitor(prog, i)
     if breaches:
-        res.violation(case, '; '.join(breaches[:4]), signature=_sig(meta, breaches), impl=i)
+        res.violation(case, '; '.join(breaches[:4]), signature=_sig(meta, breaches, prog), impl=i)
 
 
 def replay_case(env, res, case):
@@ -142,6 +169,14 @@ def replay_case(env, res, case):
     try:
         inner = case['case'] if 'case' in case and 'prog' in case['case'] else case
         prog = inner['prog']
+        if (inner.get('meta') or {}).get('impl_only'):
+            i = impl.run(prog)
+            res.case({'prog': prog})
+            print('impl :', json.dumps(i)[:2000])
+            breaches = floworacle.judge(floworacle.expect_from_json(inner.get('expect') or {}), i)
+            if breaches:
+                res.violation(inner, '; '.join(breaches[:4]), signature=_sig(inner['meta'], breaches), impl=i)
+            return
         m = flow_impl.model_run(env.driver, prog)
         i = impl.run(prog, reuse=inner.get('reuse', 1))
         res.case({'prog': prog})
